@@ -164,6 +164,30 @@ func Check(ks []string) string {
 	return ""
 }
 
+// SplitTables computes, for composite keys, the rank of every key's prefix among the distinct
+// prefixes and of its suffix among the distinct suffixes (1-based), plus the two sorted tables.
+func SplitTables(keys []string, split func(string) (string, string)) (pg, sf []int, pfx, sfx []string) {
+	ps, ss := map[string]bool{}, map[string]bool{}
+	for _, k := range keys {
+		p, s := split(k)
+		ps[p], ss[s] = true, true
+	}
+	for p := range ps {
+		pfx = append(pfx, p)
+	}
+	for s := range ss {
+		sfx = append(sfx, s)
+	}
+	sort.Strings(pfx)
+	sort.Strings(sfx)
+	for _, k := range keys {
+		p, s := split(k)
+		pg = append(pg, sort.SearchStrings(pfx, p)+1)
+		sf = append(sf, sort.SearchStrings(sfx, s)+1)
+	}
+	return
+}
+
 // OffOf maps a small positive offset id to a 40 bit record offset (bijective on ids < 2^40):
 // the drivers log ids (TLC has 32 bit integers), the real code sees 5 byte offsets.
 func OffOf(id int) uint64 {
